@@ -54,12 +54,13 @@ Theorem C04_entry_table : forall {K D T} (L : level K D T) k od ot o,
                          /\ l_chg L t (Some a) None = Ok t1 /\ o = None)
     \/ (exists d t a b t1 t', od = Some d /\ ot = Some t /\ l_info L d = AEdit a b
                               /\ l_chg L t (Some a) (Some b) = Ok t1 /\ l_child L d t1 = Ok t' /\ o = Some t')
-    \/ (exists d b t', od = Some d /\ ot = None /\ l_info L d = AAdd b
-                       /\ l_child L d (l_mk L k b) = Ok t' /\ o = Some t').
+    \/ (exists d b t0 t', od = Some d /\ ot = None /\ l_info L d = AAdd b
+                          /\ l_mk L k b = Ok t0 /\ l_child L d t0 = Ok t' /\ o = Some t').
 Proof. exact @entry_apply_ok_iff. Qed.
 Print Assumptions C04_entry_table.
 
-(* the old-value check of Names::change_name *)
+(* the old-value check of Names::change_name (used for existing and, since the fix, for new entries:
+   l_chg and l_mk of every level go through it); the first namespace is always refused *)
 Theorem C04_change_name : forall tns l from to l',
   change_name tns l from to = Ok l' <-> tns <> O /\ nth tns l None = from /\ l' = set_nth tns l to.
 Proof. exact change_name_ok. Qed.
@@ -67,7 +68,7 @@ Print Assumptions C04_change_name.
 
 (* ---------------- Theorem 1: apply is exact, level by level ---------------- *)
 Theorem C04_apply_spec_mappings : forall tns d t,
-  tns <> O -> ms_ns t <> [] -> wf_diff d = true -> NoDup (map ckey (ms_classes t)) ->
+  ms_ns t <> [] -> wf_diff d = true -> NoDup (map ckey (ms_classes t)) ->
   match apply_at tns d t with
   | Ok r => apply_ns tns (d_info d) (ms_ns t) = Ok (ms_ns r)
             /\ doc_apply (d_doc d) (ms_doc t) = Ok (ms_doc r)
@@ -83,7 +84,7 @@ Proof. exact apply_at_spec. Qed.
 Print Assumptions C04_apply_spec_mappings.
 
 Theorem C04_apply_spec_class : forall n tns d c,
-  n <> O -> tns <> O -> wf_cdiff d = true ->
+  n <> O -> wf_cdiff d = true ->
   NoDup (map fkey (c_fields c)) -> NoDup (map mkey (c_methods c)) ->
   match apply_class n tns d c with
   | Ok c' => c_names c' = c_names c
@@ -132,14 +133,14 @@ Print Assumptions C04_apply_spec_parameter.
 
 (* untouched entries stay identical (the whole node, with its subtree) *)
 Theorem C04_untouched_class : forall tns d t r k,
-  tns <> O -> ms_ns t <> [] -> wf_diff d = true -> NoDup (map ckey (ms_classes t)) ->
+  ms_ns t <> [] -> wf_diff d = true -> NoDup (map ckey (ms_classes t)) ->
   apply_at tns d t = Ok r -> cdfind k (d_classes d) = None ->
   cfind k (ms_classes r) = cfind k (ms_classes t).
 Proof. exact apply_untouched_class. Qed.
 Print Assumptions C04_untouched_class.
 
 Theorem C04_untouched_member : forall n tns d c c',
-  n <> O -> tns <> O -> wf_cdiff d = true ->
+  n <> O -> wf_cdiff d = true ->
   NoDup (map fkey (c_fields c)) -> NoDup (map mkey (c_methods c)) ->
   apply_class n tns d c = Ok c' ->
   (forall k, fdfind k (cd_fields d) = None -> ffind k (c_fields c') = ffind k (c_fields c))
@@ -156,13 +157,25 @@ Print Assumptions C04_untouched_parameter.
 
 (* refusal: Err exactly when the namespace action, the comment action or some key is refused *)
 Theorem C04_apply_refuses_iff : forall tns d t,
-  tns <> O -> ms_ns t <> [] -> wf_diff d = true -> NoDup (map ckey (ms_classes t)) ->
+  ms_ns t <> [] -> wf_diff d = true -> NoDup (map ckey (ms_classes t)) ->
   apply_at tns d t = Err <->
     apply_ns tns (d_info d) (ms_ns t) = Err
     \/ doc_apply (d_doc d) (ms_doc t) = Err
     \/ exists k, class_entry (length (ms_ns t)) tns k (cdfind k (d_classes d)) (cfind k (ms_classes t)) = Err.
 Proof. exact apply_at_err_iff. Qed.
 Print Assumptions C04_apply_refuses_iff.
+
+(* apply_to = namespace lookup (first namespace with that name), then apply_at *)
+Theorem C04_apply_to_lookup : forall d t nsname r,
+  apply_to d t nsname = Ok r <->
+  exists tns, index_of nsname (ms_ns t) = Some tns /\ apply_at tns d t = Ok r.
+Proof. exact apply_to_lookup. Qed.
+Print Assumptions C04_apply_to_lookup.
+
+Theorem C04_namespace_lookup : forall s l i, index_of s l = Some i ->
+  nth i l [] = s /\ (i < length l)%nat /\ forall j, (j < i)%nat -> nth j l [] <> s.
+Proof. exact index_of_spec. Qed.
+Print Assumptions C04_namespace_lookup.
 
 (* ---------------- Theorem 2: diff and apply are inverse (known finding F3) ---------------- *)
 Theorem C04_diff_apply_partial : forall A B,
@@ -214,6 +227,12 @@ Theorem C04_text_inverse_refuted :
   exists A B, text_hyps A B /\ f3_class A B = false /\ f4_class A B = true /\ ~ text_inverse_law A B.
 Proof. exact text_inverse_refuted. Qed.
 Print Assumptions C04_text_inverse_refuted.
+
+(* the hypotheses as the single booleans that the correspondence run evaluates on every generated pair *)
+Theorem C04_hyps_decidable : forall A B,
+  (inverse_hyps_b A B = true <-> inverse_hyps A B) /\ (text_hyps_b A B = true <-> text_hyps A B).
+Proof. exact (fun A B => conj (inverse_hyps_b_iff A B) (text_hyps_b_iff A B)). Qed.
+Print Assumptions C04_hyps_decidable.
 
 (* non-vacuity *)
 Theorem C04_text_examples :
